@@ -492,6 +492,15 @@ func (en *Engine) VerifyFunc(fc *FuncContract) (res *FuncResult) {
 			top.trusted["axiom("+ax.PkgPath+"): "+ax.Text] = true
 		}
 	}
+	for _, gv := range fc.Ghosts {
+		v := fr.evalExpr(sc, gv.Init)
+		if t := fr.resolveTypeStr(sc, gv.Type); t != nil {
+			v = fr.coerceTo(v, t)
+		} else if v.K == KConst {
+			v = fr.coerceTo(v, types.Typ[types.Int])
+		}
+		st.ghost[gv.Name] = v
+	}
 	fr.entry = st.clone()
 	fr.entryScope = sc
 	func() {
